@@ -128,9 +128,14 @@ func clip(s string, n int) string {
 
 // ---- generation
 
-func genLink(t *rapid.T, names []string, label string) *model.Node {
+func genLink(t *rapid.T, names []string, label string, bases ...string) *model.Node {
 	var n *model.Node
-	switch rapid.IntRange(0, 7).Draw(t, label+"k") {
+	k := rapid.IntRange(0, 7).Draw(t, label+"k")
+	if len(bases) > 0 && rapid.IntRange(0, 5).Draw(t, label+"inherits") == 0 {
+		// a nested object that inherits: what its parent requires, it requires
+		return model.Obj(model.R("allOf", model.Str(rapid.SampledFrom(bases).Draw(t, label+"base")))).Add("own", model.Scalar("integer", "1"))
+	}
+	switch k {
 	case 0:
 		return model.Scalar("integer", "1")
 	case 1, 2, 3, 4:
@@ -186,6 +191,16 @@ func genCase(t *rapid.T) Case {
 	for i := 0; i < n; i++ {
 		names = append(names, fmt.Sprintf("@t%d", i))
 	}
+	// object types made to be inherited from (keys of their own; @b1 may inherit from @b0), and a string type
+	// whose example reads like a property name that objects write out
+	// (every inheriting object repeats the links of its parents, and Example() unfolds every type up to twice
+	// per path: three inheriting objects per project keep the examples in the kilobytes)
+	budget := 3
+	var bases []string
+	nb := rapid.IntRange(0, 2).Draw(t, "nbases")
+	for i := 0; i < nb; i++ {
+		bases = append(bases, fmt.Sprintf("@b%d", i))
+	}
 	build := func(name string) *model.Node {
 		if name != "@main" && rapid.IntRange(0, 9).Draw(t, name+"leaf") == 0 {
 			return rapid.SampledFrom([]*model.Node{model.Scalar("integer", "1"), model.Scalar("string", `"s"`), model.Arr().Item(model.Scalar("integer", "1"))}).Draw(t, name+"leafk")
@@ -211,9 +226,26 @@ func genCase(t *rapid.T) Case {
 		if name != "@main" && rapid.IntRange(0, 9).Draw(t, name+"bodynullable") == 0 {
 			o.Rules = append(o.Rules, model.R("nullable", model.Bool(true)))
 		}
+		if len(bases) > 0 && budget > 0 && rapid.IntRange(0, 4).Draw(t, name+"inherits") == 0 {
+			o.Rules = append(o.Rules, model.R("allOf", model.Str(rapid.SampledFrom(bases).Draw(t, name+"base"))))
+			budget--
+		}
 		ne := rapid.IntRange(0, 3).Draw(t, name+"ne")
 		for j := 0; j < ne; j++ {
-			o.Add(fmt.Sprintf("k%d", j), genLink(t, names, fmt.Sprintf("%s.%d", name, j)))
+			var l *model.Node
+			if budget > 0 {
+				l = genLink(t, names, fmt.Sprintf("%s.%d", name, j), bases...)
+			} else {
+				l = genLink(t, names, fmt.Sprintf("%s.%d", name, j))
+			}
+			if l.Kind == "object" && l.HasRule("allOf") {
+				budget--
+			}
+			o.Add(fmt.Sprintf("k%d", j), l)
+		}
+		if ne > 0 && rapid.IntRange(0, 5).Draw(t, name+"shortcut") == 0 {
+			// further properties named by a string type whose own example is a name the object has already
+			o.AddShortcut("@kname", model.Scalar("integer", "2"))
 		}
 		return o
 	}
@@ -222,6 +254,24 @@ func genCase(t *rapid.T) Case {
 	for _, nm := range names[1:] {
 		p.Types = append(p.Types, model.Type{Name: nm, Node: build(nm)})
 	}
+	for i, b := range bases {
+		o := model.Obj()
+		if i == 1 && rapid.Bool().Draw(t, "b1inherits") {
+			o.Rules = append(o.Rules, model.R("allOf", model.Str("@b0")))
+		}
+		l := model.Ref(rapid.SampledFrom(names).Draw(t, b+"tg"))
+		switch rapid.IntRange(0, 5).Draw(t, b+"attr") {
+		case 0:
+			l.Rules = append(l.Rules, model.R("optional", model.Bool(true)))
+		case 1:
+			l.Rules = append(l.Rules, model.R("nullable", model.Bool(true)))
+		case 2:
+			l = model.Arr().Item(l)
+		}
+		o.Add(fmt.Sprintf("b%d_link", i), l)
+		p.Types = append(p.Types, model.Type{Name: b, Node: o})
+	}
+	p.Types = append(p.Types, model.Type{Name: "@kname", Node: model.Scalar("string", `"k0"`)})
 	// long cycles are rare by chance: with probability 1/3 thread a chain @main -> @t0 -> ... -> @main
 	// through the object types, one link of which may carry a cycle-breaking attribute
 	if n >= 1 && rapid.IntRange(0, 2).Draw(t, "chain") == 0 {
